@@ -92,6 +92,17 @@ Theorem C10_date_time_roundtrip : forall dt bs rest, EncDateTime dt bs -> p_date
 Proof. exact date_time_rt. Qed.
 Print Assumptions C10_date_time_roundtrip.
 
+(* Flags: exactly which flag tokens are refused.  A flag token is an optional backslash followed by an atom; it is refused
+   if and only if it has the backslash AND the atom is "recent" in any letter case (\Recent cannot be set by a client).
+   The KEYWORD recent / Recent / RECENT (no backslash), like every keyword that collides case-insensitively with a system
+   flag name (seen, DELETED, ...), is accepted and returned as written. *)
+Theorem C10_flag_rejected_exactly : forall (bsl : bool) a rest, EncAtom a a -> is_atom_char (cur_tok rest) = false ->
+  p_flag ((if bsl then [92] else []) ++ a ++ rest) =
+    if bsl && bytes_eqb (lower a) (s2b "recent") then RErr EParse rest
+    else ROk ((if bsl then [92] else []) ++ a) rest.
+Proof. exact flag_token. Qed.
+Print Assumptions C10_flag_rejected_exactly.
+
 (* the keywords the model dispatches on are exactly the keys of the Go builder maps (read from the source) *)
 Theorem C10_command_keywords_match :
   map s2b model_command_keywords = command_keywords /\ map s2b model_uid_keywords = uid_command_keywords.
@@ -188,6 +199,13 @@ Proof.
         -- split; [discriminate|]. split; [in_bytes|]. split; [reflexivity|discriminate].
         -- split; [|discriminate]. split; [discriminate|]. split; [in_bytes|]. split; [reflexivity|discriminate].
 Qed.
+
+(* the keyword Recent is accepted, \Recent is refused *)
+Example C10_recent_keyword_example :
+  p_flag_list 10 (s2b "(Recent \Seen rEcEnT)" ++ [13]) = ROk [s2b "Recent"; s2b "\Seen"; s2b "rEcEnT"] [13]
+  /\ (exists a, p_flag_list 10 (s2b "(\Recent)" ++ [13]) = RErr EParse a)
+  /\ (exists a, p_flag_list 10 (s2b "(\rEcEnT)" ++ [13]) = RErr EParse a).
+Proof. vm_compute. repeat split; eexists; reflexivity. Qed.
 
 (* the theorem applied to the examples, and the same by evaluation of the model *)
 Example C10_examples_parse :
